@@ -44,7 +44,7 @@ fn main() {
         started: Instant::now(),
         shard: (0, 1),
         stages: vec![],
-        hang_s: 30,
+        hang_s: 20,
         verbose: false,
     };
     let mut out: Option<String> = None;
@@ -114,6 +114,7 @@ fn main() {
         cfg.verbose = true;
     }
     fw::install_panic_hook();
+    fw::install_crash_handler();
     let t0 = Instant::now();
     let mut rep = Report::default();
     if !props::run(&cfg, &mut rep) {
